@@ -250,6 +250,10 @@ def impl_bigo(case):
 
     expr = B.as_expression(case["expr"])
     x = sympy.Symbol(case["var"])
+    if case.get("assume"):
+        xa = sympy.Symbol(case["var"], **{k: True for k in case["assume"]})
+        expr = expr.subs(x, xa)
+        x = xa
     res = BigO(expr, variable=x).expr
     terms = [list(t) for t, _ in sympy.Poly(expr, x).terms()] if expr.free_symbols else []
     e, _ = from_sympy(res)
@@ -477,6 +481,19 @@ def impl_repro(case):
     g3 = add_aggregated_resources(res1.routine, d)
     out["aggregate_pure"] = pickle.dumps(res1.routine) == snap and d == d_before and repr(d) == d_repr
     out["aggregate_repeatable"] = g1 == g3 and g2 is not None
+    # a dictionary whose first entry mentions several keys defined LATER (their relative order in the expansion comes
+    # out of a set of strings), every one of them held by the routine, of different types, all feeding one new name:
+    # the exported aggregated document is compared across processes (agg_sha)
+    try:
+        d3 = {"zz_sel": {n: i + 2 for i, n in enumerate(names)}}
+        for i, n in enumerate(names):
+            d3[n] = {"zz_new": i + 1, "zz_keep_" + n: 1}
+        g4 = add_aggregated_resources(res1.routine, d3)
+        from bartiq import routine_to_qref as _r2q
+        from bartiq import sympy_backend as _sb
+        out["agg_sha"] = hashlib.sha256(_r2q(g4, _sb).model_dump_json().encode()).hexdigest()
+    except Exception as ex:
+        out["agg_sha"] = "exc:" + type(ex).__name__
     # the same dictionary used as a post-processing stage of compile_routine
     try:
         from bartiq.compilation.postprocessing import aggregate_resources
